@@ -134,6 +134,25 @@ def make_jobs(chk):
         c = (ctrl + bytes(rng.randrange(256) for _ in range(5000)))[:size]
         n += 1
         jobs.append(mkjob(rng, "c%d:size%d" % (n, size), spk, script, c if size else b""))
+    # path lengths beyond the maximum whose folding IS the committed root (only the size rule can refuse them; counts that wrap in 8 / 9 bits)
+    for m in (129, 130, 200, 255, 256, 257, 300, 384, 385, 512, 640):
+        spk, script, ctrl = build(rng, m, ["rnd"])
+        n += 1
+        jobs.append(mkjob(rng, "c%d:valid-fold-m%d" % (n, m), spk, script, ctrl))
+    # two inputs spending different outputs of ONE funding transaction (signature-free leaves): the program the commitment is checked against
+    # is that of the output the selected input spends, whatever the order of the inputs
+    for order in ((0, 1), (1, 0)):
+        for sel in (-1, 0, 1):
+            for variant in ("valid", "other-program"):
+                outs = [build(rng, m, ["rnd"], script=bytes([OP["NOP"]]) * (1 + m) + b"\x51") for m in (1, 2)]
+                funding = btc.Tx(version=2, vin=[btc.TxIn(bytes(rng.randrange(256) for _ in range(32)), 0, b"", 0xffffffff)],
+                                 vout=[btc.TxOut(50000 + 1000 * i, outs[i][0]) for i in range(2)])
+                tx = btc.Tx(version=2, vin=[btc.TxIn(funding.txid(), order[i], b"", 0xffffffff) for i in range(2)], vout=[btc.TxOut(40000, b"\x51")])
+                # "other-program": each input carries the witness that commits to the OTHER output's program (invalid for the output it spends)
+                tx.witness = [[outs[order[i] if variant == "valid" else 1 - order[i]][1], outs[order[i] if variant == "valid" else 1 - order[i]][2]] for i in range(2)]
+                n += 1
+                jobs.append(SessionJob("c%d:two-inputs:%d%d:sel%d:%s" % (n, order[0], order[1], sel, variant), b"", [], STANDARD, "BASE", cmds=["steps", "step", "step", "run"], cmp=CMP, auto=True,
+                                       txctx={"tx": tx.hex(), "txin": funding.hex(), "select": sel}))
     # leaf versions (only 0xc0 is executable; all others must be refused by the tool, whatever the commitment)
     for lv in ([0xc0, 0xc2, 0x50, 0x00, 0xfe, 0x02] if quick else list(range(0, 256, 2))):
         spk, script, ctrl = build(rng, 1, ["rnd"], leafver=lv)
